@@ -9,13 +9,17 @@
   `Admissible V u` = the change `u` is one the RIB may emit when the session's view is `V`
   (ids stable and not shared, `best_changed = false` only if the best path is the same);
   `target e paths` = what export behaviour `e` advertises for a destination with these paths.
-  The session-level theorems are for sessions without add-path (`effective_max = 1`); the add-path
-  branch is covered by the correspondence stream only.
+  The session-level theorems come in two forms: for sessions without add-path (`effective_max = 1`,
+  wire path id 0, only the best path matters) and, suffix `_addpath`, for add-path sessions
+  (`effective_max ≠ 1`: the top-N window after the per-peer filters, one wire path id per local
+  path id; `AdmA V u resend` additionally says that `any_changed = false` means the same paths, that
+  a path keeping its id without being reported as replaced is the same path, and that path ids are
+  unique per destination).  The master theorem covers both.
 -/
 import Rbgp.Export.ConvMaster
 import Rbgp.Export.RibIds
 namespace Rbgp.Export.Props01
-open Rbgp.Export Rbgp.Export.Conv
+open Rbgp.Export Rbgp.Export.Conv Rbgp.Export.ConvA
 
 /-! ## PendingTx -/
 
@@ -75,6 +79,17 @@ theorem destid_stable_remove (s : Shard) (h : RibIds.ShardOk s) (net : Net) (src
        (∃ ch, (s.remove net src rpid).2 = some ch ∧ ch.net = net ∧ ch.destId = d.id ∧ ch.paths = [])) :=
   RibIds.remove_ok s h net src rpid
 
+/-- a peer going down keeps the table consistent; a prefix that keeps paths keeps its id; an id is
+    released only for a prefix that lost all its paths; every emitted change names the id of its
+    prefix, and the change for a prefix that is gone carries no paths -/
+theorem destid_stable_drop (s : Shard) (h : RibIds.ShardOk s) (addr : Addr) :
+    RibIds.ShardOk (s.drop addr).1 ∧
+    (∀ d' ∈ (s.drop addr).1.dests, ∃ d ∈ s.dests, d'.net = d.net ∧ d'.id = d.id) ∧
+    (∀ d ∈ s.dests, (dropDest addr d).1 ≠ none → ∃ d' ∈ (s.drop addr).1.dests, d'.net = d.net ∧ d'.id = d.id) ∧
+    (∀ ch ∈ (s.drop addr).2, ∃ d ∈ s.dests, ch.net = d.net ∧ ch.destId = d.id ∧
+       ((∀ d' ∈ (s.drop addr).1.dests, d'.net ≠ d.net) → ch.paths = [])) :=
+  RibIds.drop_ok s h addr
+
 /-! ## export_invariant: every step of an established session keeps `SInv` -/
 
 theorem export_invariant_establish (sess : Sess) (hm : sess.max = 1) (rib : Rib)
@@ -127,14 +142,72 @@ theorem withdraw_on_wire (sess : Sess) (hm : sess.max = 1) (rib0 : Rib) (h0 : Sn
     Mirror.get (runS (establish sess rib0) evs).flush.mirror net 0 = none :=
   Conv.withdraw_on_wire sess hm rib0 h0 evs hadm hfresh net hgone
 
+/-! ## the same for add-path sessions (top-N window) -/
+
+theorem export_invariant_establish_addpath (sess : Sess) (hm : sess.max ≠ 1) (rib : Rib)
+    (h : SnapshotA (snapshotOf sess rib)) :
+    SInvA (fun _ _ => sess.exp) (viewOf (snapshotOf sess rib)) (establish sess rib) :=
+  sinv_establishA sess hm rib h
+
+theorem export_invariant_deliver_addpath {E : Net → Nat → Exp} {V : View} {st : SessState} (S : SInvA E V st)
+    (u : Change Net) (resend : Bool) (ha : AdmA V u resend) :
+    SInvA (stepEA E V u st.sess.exp resend) (V.update u.net u.destId u.paths) (st.handle u resend) :=
+  sinv_handleA S u resend ha
+
+theorem export_invariant_flush_addpath {E : Net → Nat → Exp} {V : View} {st : SessState} (S : SInvA E V st) :
+    SInvA E V st.flush := sinv_flushA S
+
+theorem export_invariant_soft_reset_addpath {E : Net → Nat → Exp} {V : View} {st : SessState} (S : SInvA E V st)
+    (cs : List (Change Net)) (hm : SnapMatchesA V cs) :
+    SInvA (refreshEA E cs st.sess.exp) (viewRefresh V cs) (refreshS st cs) := sinv_refreshA S cs hm
+
+/-- what the invariant says once flushed: for every prefix and path id the mirror holds exactly the
+    export of the view's window -/
+theorem export_invariant_meaning_addpath {E : Net → Nat → Exp} {V : View} {st : SessState} (S : SInvA E V st)
+    (net : Net) (w : Nat) : Mirror.get st.flush.mirror net w = wantA E V net w := convergedA S net w
+
+theorem convergence_addpath (sess : Sess) (hm : sess.max ≠ 1) (rib0 : Rib) (h0 : SnapshotA (snapshotOf sess rib0))
+    (evs : List SEv) (hadm : AdmSeqA (viewOf (snapshotOf sess rib0)) evs)
+    (hfresh : staleAfter false evs = false) (net : Net) (w : Nat) :
+    Mirror.get (runS (establish sess rib0) evs).flush.mirror net w =
+      wantRouteA (runS (establish sess rib0) evs).sess.exp (viewAfter (viewOf (snapshotOf sess rib0)) evs) net w :=
+  convergenceA sess hm rib0 h0 evs hadm hfresh net w
+
+/-- against the fresh dump: if the paths last delivered are the RIB's visible paths, the neighbour's
+    view is, path id by path id, what a brand-new session with the current policy would be sent -/
+theorem convergence_vs_fresh_dump_addpath (sess : Sess) (hm : sess.max ≠ 1) (rib0 rib : Rib)
+    (h0 : SnapshotA (snapshotOf sess rib0))
+    (evs : List SEv) (hadm : AdmSeqA (viewOf (snapshotOf sess rib0)) evs)
+    (hfresh : staleAfter false evs = false)
+    (hmax : (runS (establish sess rib0) evs).sess.max ≠ 1)
+    (h1 : SnapshotA (snapshotOf (runS (establish sess rib0) evs).sess rib))
+    (hview : ∀ net, (viewAfter (viewOf (snapshotOf sess rib0)) evs).paths net =
+                    (viewOf (snapshotOf (runS (establish sess rib0) evs).sess rib)).paths net)
+    (net : Net) (w : Nat) :
+    Mirror.get (runS (establish sess rib0) evs).flush.mirror net w =
+      Mirror.get (freshDump (runS (establish sess rib0) evs).sess rib) net w := by
+  rw [convergenceA sess hm rib0 h0 evs hadm hfresh net w, fresh_dumpA _ hmax rib h1 net w]
+  simp only [wantRouteA, hview net]
+
+/-- `withdraw_on_wire`, add-path: a path id that is not (any more) in the exported window of the last
+    delivered paths is absent from the neighbour's view after the next flush -/
+theorem withdraw_on_wire_addpath (sess : Sess) (hm : sess.max ≠ 1) (rib0 : Rib) (h0 : SnapshotA (snapshotOf sess rib0))
+    (evs : List SEv) (hadm : AdmSeqA (viewOf (snapshotOf sess rib0)) evs)
+    (hfresh : staleAfter false evs = false) (net : Net) (w : Nat)
+    (hgone : tlookup w (target (runS (establish sess rib0) evs).sess.exp
+               ((viewAfter (viewOf (snapshotOf sess rib0)) evs).paths net)) = none) :
+    Mirror.get (runS (establish sess rib0) evs).flush.mirror net w = none := by
+  rw [convergenceA sess hm rib0 h0 evs hadm hfresh net w]
+  simp [wantRouteA, hgone]
+
 /-! ## master theorem over the composed model -/
 
 /-- The C01 reference checker accepts every run of the composed model (RIB, change queue, session,
-    flushes, fresh dump) whose computed hypotheses hold: `Conv.okRun c` = the session has no add-path,
-    no LLGR stale period starts, every delivered change is admissible for the session's view, every
-    soft reset walks a snapshot of the view's destinations, no policy change is left without its soft
-    reset, and the final RIB snapshot is consistent, carries the view's best paths and only announced
-    prefixes.  The driver evaluates `okRun` on every generated case. -/
+    flushes, fresh dump) whose computed hypotheses hold: `Conv.okRun c` = no LLGR stale period starts,
+    every delivered change is admissible for the session's view (in the session's mode, with or
+    without add-path), every soft reset walks a snapshot of the view's destinations, no policy change
+    is left without its soft reset, and the final RIB snapshot is consistent, carries the view's
+    paths (best paths for a session without add-path) and only announced prefixes.  The driver evaluates `okRun` on every generated case. -/
 theorem check_run_ok (c : Case01) (h : Conv.okRun c = true) : Spec01.check c (run01 c) = .ok :=
   Conv.check_run_ok c h
 
@@ -159,6 +232,16 @@ example : Conv.okRun caseReuse = true := by decide
 example : (run01 caseReuse).reuse = 1 := by decide
 example : Spec01.check caseReuse (run01 caseReuse) = .ok := check_run_ok caseReuse (by decide)
 
+/-- an add-path neighbour (send-max 2), two sources: the non-best path is replaced, then withdrawn -/
+def caseAddPath : Case01 :=
+  { shards := 1, sess := nbr 2, srcs := [ebgpSrc, { ebgpSrc with addr := .v4 167772163, routerId := 50529027 }],
+    pfxs := [((167837696, 24), 0)], asets := [as0, as2], pols := [], pre := [],
+    ops := [.ann 0 0 0 0 (.v4 167772418), .ann 1 0 0 1 (.v4 167772418), .deliver 2, .flush,
+            .ann 1 0 0 0 (.v4 167772419), .deliver 1, .flush, .wd 1 0 0, .deliver 1, .flush] }
+
+example : Conv.okRun caseAddPath = true := by decide
+example : Spec01.check caseAddPath (run01 caseAddPath) = .ok := check_run_ok caseAddPath (by decide)
+
 /-- S36's history (open finding): a soft reset re-walks the RIB while the withdrawal of 10.1.0.0/24 is
     still queued; its destination id was re-used by 10.1.1.0/24, which the new policy rejects -/
 def caseOvertake : Case01 :=
@@ -182,6 +265,14 @@ example : (run01 caseOvertake).overtaken = 1 := by decide
 
 #print axioms destid_stable_insert
 #print axioms destid_stable_remove
+#print axioms destid_stable_drop
+#print axioms export_invariant_establish_addpath
+#print axioms export_invariant_deliver_addpath
+#print axioms export_invariant_flush_addpath
+#print axioms export_invariant_soft_reset_addpath
+#print axioms convergence_addpath
+#print axioms convergence_vs_fresh_dump_addpath
+#print axioms withdraw_on_wire_addpath
 #print axioms check_run_ok
 #print axioms C01_full_fails
 #print axioms pending_last_writer_wins
